@@ -310,6 +310,15 @@ def sstep {V : Type} (init : V) (s : SState V) (t : Tid) : SState V :=
 
 def srun {V : Type} (init : V) (sched : List Tid) : SState V := sched.foldl (sstep init) SState.init
 
+/-- Package-level variables of map / slice type: state that every request of the process can reach without going through
+a schema, plan or cache value, so none of the three disciplines covers it. The two that exist are configuration lists the
+library only reads (`SpecifiedRules`, `SpecifiedDirectives`); a new one (say a shared "empty arguments" map handed to
+resolvers) must be looked at. -/
+def expectedPackageVars : List (String × String × String) := [
+  ("directives.go", "SpecifiedDirectives", "slice"),
+  ("rules.go", "SpecifiedRules", "slice")
+]
+
 def sitesRespectDiscipline (lockFacts fieldAccesses : List (String × String × String × String))
     (atomicFields : List (String × String × String)) (mutexFields : List (String × String))
     (calls : List (String × String)) : Bool :=
